@@ -10,6 +10,8 @@
 -/
 import OrbProofs.C10Lemmas
 import OrbProofs.C10DistLemmas
+import OrbProofs.C10MoreLemmas
+import OrbProofs.C10NestLemmas
 
 namespace Orb.Planar
 open Orb Orb.Core
@@ -101,6 +103,50 @@ theorem multi_centroid_weighted (sqrt : α → α) (mp : List (List (List (Pt α
       (mp.map fun p => (polygonCentroidArea sqrt p).1.y * (polygonCentroidArea sqrt p).2).sum /
         (mp.map fun p => (polygonCentroidArea sqrt p).2).sum :=
   multi_centroid_weighted' sqrt mp hA
+
+/-- collection whose top dimension is 2: the area-weighted mean of the centroids of its members of top dimension
+    (`maxDim`), members of lower dimension are ignored (lower top dimensions: `collection_lowerdim_centroid_origin`) -/
+theorem collection_centroid_weighted (sqrt : α → α) (gs : List (Geom α))
+    (hA : area sqrt (.collection gs) ≠ 0) :
+    let top := gs.filter fun g => dimensions g == maxDim gs
+    (centroidArea sqrt (.collection gs)).1.x =
+      (top.map fun g => (centroidArea sqrt g).1.x * area sqrt g).sum / (top.map (area sqrt)).sum ∧
+    (centroidArea sqrt (.collection gs)).1.y =
+      (top.map fun g => (centroidArea sqrt g).1.y * area sqrt g).sum / (top.map (area sqrt)).sum :=
+  collection_centroid_weighted' sqrt gs hA
+
+/-! The degenerate fall-backs (total weight 0), the complement of the `≠ 0` hypotheses above. -/
+
+/-- a ring of area 0 answers its first vertex -/
+theorem ring_degenerate_centroid (o : Pt α) (rest : List (Pt α)) (h : ringArea (o :: rest) = 0) :
+    ringCentroidArea (o :: rest) = (o, 0) := ring_degenerate_centroid' o rest h
+
+/-- a polygon of total area 0 (flat outer ring, or holes that use the outer ring up) falls back to the centroid of
+    its OUTER RING AS A LINE: the length-weighted mean of the midpoints of the consecutive segments of the vertex
+    list (the closing segment only when the ring is explicitly closed), the first vertex when that length is 0 … -/
+theorem polygon_degenerate_centroid (sqrt : α → α) (v : Pt α) (rest : List (Pt α)) (hs : List (List (Pt α)))
+    (h0 : (polygonCentroidArea sqrt ((v :: rest) :: hs)).2 = 0) :
+    let segs := (v :: rest).zip rest
+    let len := fun (ab : Pt α × Pt α) => sqrt ((ab.1.x - ab.2.x) * (ab.1.x - ab.2.x) + (ab.1.y - ab.2.y) * (ab.1.y - ab.2.y))
+    let L := (segs.map len).sum
+    (L = 0 → polygonCentroidArea sqrt ((v :: rest) :: hs) = (v, 0)) ∧
+    (L ≠ 0 → polygonCentroidArea sqrt ((v :: rest) :: hs) =
+      (⟨(segs.map fun ab => (ab.1.x + ab.2.x) / 2 * len ab).sum / L, (segs.map fun ab => (ab.1.y + ab.2.y) / 2 * len ab).sum / L⟩, 0)) :=
+  polygon_degenerate_centroid' sqrt v rest hs h0
+
+/-- … and to the origin when the outer ring has no vertex. -/
+theorem polygon_degenerate_centroid_nil (sqrt : α → α) (hs : List (List (Pt α)))
+    (h0 : (polygonCentroidArea sqrt (([] : List (Pt α)) :: hs)).2 = 0) :
+    polygonCentroidArea sqrt (([] : List (Pt α)) :: hs) = (⟨0, 0⟩, 0) := polygon_degenerate_centroid_nil' sqrt hs h0
+
+/-- a multi-polygon / a collection of total area 0 answers the origin -/
+theorem multi_degenerate_centroid (sqrt : α → α) (mp : List (List (List (Pt α))))
+    (h0 : (multiPolygonCentroidArea sqrt mp).2 = 0) : multiPolygonCentroidArea sqrt mp = (⟨0, 0⟩, 0) :=
+  multi_degenerate_centroid' sqrt mp h0
+
+theorem collection_degenerate_centroid (sqrt : α → α) (gs : List (Geom α))
+    (h0 : area sqrt (.collection gs) = 0) : centroidArea sqrt (.collection gs) = (⟨0, 0⟩, 0) :=
+  collection_degenerate_centroid' sqrt gs h0
 
 /-- multi-point: count-weighted -/
 theorem multiPoint_centroid_mean (ps : List (Pt α)) (h : ps ≠ []) :
@@ -197,6 +243,55 @@ theorem lineStringDistanceFrom_index (sqrt : α → α) (ls : List (Pt α)) (p :
         at'[i]? = some m ∧ ∀ j, j < i → ∀ x, at'[j]? = some x → m < x) :=
   lineStringDistanceFrom_index' sqrt ls p
 
+omit [Field α] [IsStrictOrderedRing α] in
+/-- What "the index names the first member attaining the minimum" means (`none` = +Inf, a member with no point or
+    segment): no member has a distance and the answer is `(+Inf, -1)`; or the distance is the minimum `m` of the
+    members' distances, the member at the index has exactly that distance and every earlier member has none or a
+    strictly larger one. -/
+theorem firstMinIndex_iff (ds : List (Option α)) (r : Option α × Int) :
+    FirstMinIndex ds r ↔
+      (((∀ d ∈ ds, d = none) → r = (none, -1)) ∧
+       ∀ m, (ds.filterMap id).min? = some m →
+         ∃ i : Nat, r = (some m, (i : Int)) ∧ ds[i]? = some (some m) ∧
+           ∀ j, j < i → ∀ x, ds[j]? = some (some x) → m < x) := Iff.rfl
+
+/-- The index reported for a MultiPoint is the first point attaining the minimum (squared distances are compared,
+    `sqrt` is taken at the end); -1 when there is none. -/
+theorem multiPointDistanceFrom_index (sqrt : α → α) (mp : List (Pt α)) (p : Pt α) :
+    let at' := mp.map fun q => distanceSquared q p
+    (at' = [] → multiPointDistanceFrom sqrt mp p = (none, -1)) ∧
+    (∀ m, at'.min? = some m → ∃ i : Nat, multiPointDistanceFrom sqrt mp p = (some (sqrt m), (i : Int)) ∧
+        at'[i]? = some m ∧ ∀ j, j < i → ∀ x, at'[j]? = some x → m < x) :=
+  multiPoint_index' sqrt mp p
+
+/-- The index reported for a MultiLineString is the first line attaining the minimum of the lines' distances … -/
+theorem multiLineStringDistanceFrom_index (sqrt : α → α) (mls : List (List (Pt α))) (p : Pt α) :
+    FirstMinIndex (mls.map fun l => (lineStringDistanceFrom sqrt l p).1)
+      (distanceFromWithIndex sqrt p (.multiLineString mls)) := multiLineString_index' sqrt mls p
+
+/-- … for a MultiPolygon the first polygon … -/
+theorem multiPolygonDistanceFrom_index (sqrt : α → α) (mp : List (List (List (Pt α)))) (p : Pt α) :
+    FirstMinIndex (mp.map fun pg => (polygonDistanceFrom sqrt pg p).1)
+      (distanceFromWithIndex sqrt p (.multiPolygon mp)) := multiPolygon_index' sqrt mp p
+
+/-- … and for a Collection the first member (each member's distance being its own `DistanceFrom`, see
+    `distanceFrom_min`). -/
+theorem collectionDistanceFrom_index (sqrt : α → α) (gs : List (Geom α)) (p : Pt α) :
+    FirstMinIndex (gs.map fun g => distanceFrom sqrt g p) (distanceFromWithIndex sqrt p (.collection gs)) :=
+  collection_index' sqrt gs p
+
+/-- The index reported for a Polygon is NOT a ring index (the loop counter is shadowed in the code): the whole answer is
+    `lineStringDistanceFrom`'s for the FIRST ring attaining the minimum of the rings' distances (`optLt` is `<` with
+    `none` = +Inf) — hence, by `lineStringDistanceFrom_index`, the first nearest segment of the first nearest ring. -/
+theorem polygonDistanceFrom_index (sqrt : α → α) (pg : List (List (Pt α))) (p : Pt α) :
+    (pg = [] → polygonDistanceFrom sqrt pg p = (none, -1)) ∧
+    (pg ≠ [] → ∃ (k : Nat) (r : List (Pt α)), pg[k]? = some r ∧
+      polygonDistanceFrom sqrt pg p = lineStringDistanceFrom sqrt r p ∧
+      (∀ j, j < k → ∀ x, pg[j]? = some x →
+        optLt (lineStringDistanceFrom sqrt r p).1 (lineStringDistanceFrom sqrt x p).1 = true) ∧
+      ∀ x ∈ pg, optLt (lineStringDistanceFrom sqrt x p).1 (lineStringDistanceFrom sqrt r p).1 = false) :=
+  polygon_index' sqrt pg p
+
 /-- Distance-from is zero exactly when the point is a point of the geometry or lies on one of its segments
     (an atom is zero; see `segdist_zero_iff`, `distanceSquared_zero_iff`). -/
 theorem distanceFrom_zero_iff_on_boundary (sqrt : α → α) (hm : Monotone sqrt)
@@ -209,6 +304,47 @@ end lengthdist
 def polygon_area_nonneg_full : Prop :=
   ∀ (α : Type) [Field α] [LinearOrder α] [IsStrictOrderedRing α] (sqrt : α → α) (o : List (Pt α)) (hs : List (List (Pt α))),
     NestedHoles o hs → 0 ≤ (polygonCentroidArea sqrt (o :: hs)).2
+
+/-- `polygon_area_nonneg_full` AS STATED IS FALSE: `NestedHoles` speaks about even-odd regions, and a hole that runs
+    twice round the outer triangle (0,0) (4,0) (0,4) has an empty even-odd interior (so it is "nested") and twice the
+    area: the polygon's area is 8 − 16 = −8.  The rings of the clause must be simple. -/
+theorem polygon_area_nonneg_full_false : ¬ polygon_area_nonneg_full := by
+  intro h
+  have := h Rat id cexOuter [cexHole] cex_nested
+  rw [cex_area] at this
+  norm_num at this
+
+/-- the geometric half of "never negative for nested rings", corrected: SIMPLE rings (stated, not proved) -/
+def polygon_area_nonneg_simple_full : Prop :=
+  ∀ (α : Type) [Field α] [LinearOrder α] [IsStrictOrderedRing α] (sqrt : α → α) (o : List (Pt α)) (hs : List (List (Pt α))),
+    SimpleRing o → (∀ h ∈ hs, SimpleRing h) → NestedHoles o hs → 0 ≤ (polygonCentroidArea sqrt (o :: hs)).2
+
+section nonneg_special
+variable {α : Type} [Field α] [LinearOrder α] [IsStrictOrderedRing α]
+
+/-- A ring of at most four vertices (a triangle, a quadrilateral — simple or not, degenerate or not) whose vertices all
+    lie on one and the same side of EVERY edge line of a ring `r` of non-zero area (`OneSide`; for a convex `r`:
+    anywhere in the polygon) has at most the area of `r`. -/
+theorem ring_small_le_ring (r : List (Pt α)) (hA : ringArea r ≠ 0)
+    (h : List (Pt α)) (hlen : h.length ≤ 4) (hin : ∀ p ∈ h, OneSide r p) :
+    |ringArea h| ≤ |ringArea r| := small_le_ring' r hA h hlen hin
+
+omit [IsStrictOrderedRing α] in
+/-- what `OneSide` says -/
+theorem oneSide_iff (r : List (Pt α)) (p : Pt α) :
+    OneSide r p ↔ ((∀ e ∈ EvenOdd.edges r, 0 ≤ EvenOdd.cross e.1 e.2 p) ∨
+      (∀ e ∈ EvenOdd.edges r, EvenOdd.cross e.1 e.2 p ≤ 0)) := Iff.rfl
+
+/-- SPECIAL CASE of "never negative for nested rings", proved outright (no geometry assumed): an outer ring of non-zero
+    area and ONE hole of at most four vertices (optionally closed explicitly: five listed) all of which lie on one side
+    of every edge line of the outer ring — e.g. a triangular or quadrilateral hole anywhere in a convex outer ring.
+    (More holes need their disjointness to be turned into additivity of area: `polygon_area_nonneg_simple_full`.) -/
+theorem polygon_area_nonneg_small_hole (sqrt : α → α) (o : List (Pt α)) (hA : ringArea o ≠ 0)
+    (h : List (Pt α)) (hin : ∀ p ∈ h, OneSide o p)
+    (hlen : h.length ≤ 4 ∨ ∃ v t, h = v :: t ++ [v] ∧ t.length ≤ 3) :
+    0 ≤ (polygonCentroidArea sqrt [o, h]).2 := polygon_area_nonneg_small_hole' sqrt o hA h hin hlen
+
+end nonneg_special
 
 def centroid_convex_in_bound_full : Prop :=
   ∀ (α : Type) [Field α] [LinearOrder α] [IsStrictOrderedRing α] (r : List (Pt α)) (lx hx ly hy : α),
@@ -225,5 +361,24 @@ example : ringCentroidArea ([⟨0, 0⟩, ⟨4, 0⟩, ⟨4, 4⟩, ⟨0, 0⟩] : L
     (polygonCentroidArea id ([[⟨0, 0⟩, ⟨4, 0⟩, ⟨4, 4⟩, ⟨0, 4⟩, ⟨0, 0⟩], [⟨1, 1⟩, ⟨1, 3⟩, ⟨3, 3⟩, ⟨3, 1⟩, ⟨1, 1⟩]] : List (List (Pt Rat)))).2 = 12 ∧
     segmentDistanceFromSquared (⟨0, 0⟩ : Pt Rat) ⟨10, 0⟩ ⟨3, 4⟩ = 16 := by
   refine ⟨?_, ?_, ?_⟩ <;> decide +kernel
+
+/-- Non-vacuity of the additions: the flat polygon of the review (falls back to the length-weighted centroid (2,0) of
+    its outer ring as a line), a collection of two squares of areas 4 and 16 (centroid = area-weighted mean), and a
+    tie between two members of a multi-point / multi-line (the FIRST is reported). -/
+example : polygonCentroidArea id ([[⟨0, 0⟩, ⟨2, 0⟩, ⟨4, 0⟩, ⟨0, 0⟩]] : List (List (Pt Rat))) = (⟨2, 0⟩, 0) ∧
+    centroidArea id (.collection [.polygon [[⟨0, 0⟩, ⟨2, 0⟩, ⟨2, 2⟩, ⟨0, 2⟩, ⟨0, 0⟩]], .lineString [⟨9, 9⟩, ⟨8, 8⟩],
+      .ring [⟨10, 0⟩, ⟨14, 0⟩, ⟨14, 4⟩, ⟨10, 4⟩, ⟨10, 0⟩]] : Geom Rat) = (⟨(1 * 4 + 12 * 16) / 20, (1 * 4 + 2 * 16) / 20⟩, 20) ∧
+    multiPointDistanceFrom id ([⟨5, 0⟩, ⟨0, 3⟩, ⟨3, 0⟩, ⟨0, -3⟩] : List (Pt Rat)) ⟨0, 0⟩ = (some 9, 1) ∧
+    distanceFromWithIndex id (⟨0, 0⟩ : Pt Rat) (.multiLineString [[], [⟨2, -1⟩, ⟨2, 1⟩], [⟨-2, -1⟩, ⟨-2, 1⟩]]) = (some 4, 1) := by
+  refine ⟨?_, ?_, ?_, ?_⟩ <;> decide +kernel
+
+/-- Non-vacuity of the special case: the closed box (0,0)-(6,6), clockwise or counter-clockwise, and a triangular hole
+    in it satisfy its hypotheses (and the area is 36 − 2 = 34). -/
+example : (∀ p ∈ ([⟨1, 1⟩, ⟨1, 3⟩, ⟨3, 1⟩] : List (Pt Rat)), OneSide [⟨0, 0⟩, ⟨6, 0⟩, ⟨6, 6⟩, ⟨0, 6⟩, ⟨0, 0⟩] p) ∧
+    (∀ p ∈ ([⟨1, 1⟩, ⟨1, 3⟩, ⟨3, 1⟩] : List (Pt Rat)), OneSide [⟨0, 0⟩, ⟨0, 6⟩, ⟨6, 6⟩, ⟨6, 0⟩, ⟨0, 0⟩] p) ∧
+    ringArea ([⟨0, 0⟩, ⟨6, 0⟩, ⟨6, 6⟩, ⟨0, 6⟩, ⟨0, 0⟩] : List (Pt Rat)) ≠ 0 ∧
+    (polygonCentroidArea id ([[⟨0, 0⟩, ⟨6, 0⟩, ⟨6, 6⟩, ⟨0, 6⟩, ⟨0, 0⟩], [⟨1, 1⟩, ⟨1, 3⟩, ⟨3, 1⟩]] : List (List (Pt Rat)))).2 = 34 := by
+  simp only [OneSide]
+  refine ⟨?_, ?_, ?_, ?_⟩ <;> decide +kernel
 
 end Orb.Planar
